@@ -25,3 +25,20 @@ EDITS = {
     "C19": [("pams/market.py", "        if is_buy:\n            return self.convert_to_tick_level_rounded_lower(price=price)\n        else:\n            return self.convert_to_tick_level_rounded_upper(price=price)", "        if is_buy:\n            return self.convert_to_tick_level_rounded_upper(price=price)\n        else:\n            return self.convert_to_tick_level_rounded_lower(price=price)", ["Market._add_order"])],
     "C20": [("pams/agents/market_maker_agent.py", "price=base_price + price_margin,", "price=base_price + 2 * price_margin,", ["MarketMakerAgent.submit_orders"])],
 }
+
+# edits added with the later contracts (wrappers, registries, call-site censuses, dependencies found by the seeded rounds)
+_MORE = {
+    "C20": [("pams/agents/arbitrage_agent.py", "            orders.extend(self._submit_orders(market=market))", "            orders = self._submit_orders(market=market)", ["ArbitrageAgent.submit_orders"]),
+            ("pams/agents/fcn_agent.py", "[self.submit_orders_by_market(market=market) for market in markets], []", "[self.submit_orders_by_market(market=markets[0]) for market in markets], []", ["FCNAgent.submit_orders"])],
+    "C13": [("pams/simulator.py", "            \"market_after\": {},\n", "", ["Simulator.__init__[registries]"])],
+    "C18": [("pams/runners/sequential.py", "        self._generate_markets(market_type_names=market_type_names)\n        self._set_fundamental_correlation()\n",
+             "        self._set_fundamental_correlation()\n        self._generate_markets(market_type_names=market_type_names)\n", ["SequentialRunner._setup"]),
+            ("pams/runners/sequential.py", "excludes_fields=[\"numMarkets\", \"from\", \"to\", \"prefix\"],", "excludes_fields=[\"numMarkets\", \"from\", \"to\", \"prefix\", \"enabled\"],", ["census:json_extends-call-sites"])],
+    "C09": [("pams/simulator.py", "if isinstance(agent, HighFrequencyAgent):", "if type(agent) is HighFrequencyAgent:", ["Simulator._add_agent"])],
+    "C12": [("pams/runners/sequential.py", "market_id2=market2.market_id,", "market_id2=market1.market_id,", ["SequentialRunner._set_fundamental_correlation[pair]"]),
+            ("pams/fundamentals.py", "return [self.prices[market_id][x] for x in times]", "return [self.prices[market_id][max(x - 1, 0)] for x in times]", ["Fundamentals.get_fundamental_prices"])],
+    "C16": [("pams/events/trading_halt_rule.py", "self.halted_session = simulator.current_session", "self.halted_session = self.session", ["TradingHaltRule.hooked_after_execution"])],
+    "C05": [("pams/runners/sequential.py", "            market._is_running = session.with_order_execution\n", "            market._is_running = session.with_order_execution\n            market._execution()\n", ["census:callers[matching]"])],
+}
+for _k, _v in _MORE.items():
+    EDITS.setdefault(_k, []).extend(_v)
